@@ -17,7 +17,7 @@ import (
 
 func init() {
 	Register(&Scenario{Prop: "C04", Name: "tampered-entries", Run: scenC04, SoftParks: true, Weight: 1,
-		Rule: "honest writer W, receiver R, adversary (listed as a colluding writer in half of the runs); W writes 2-5 entries, R replicates all or some; then 3-8 (thorough 3-16) attempts, each one valid entry of W's log with ONE wire field mutated {payload, clock.time, clock.id, next, refs, v, key, sig, identity.id, identity.publicKey, identity.signatures, identity.type, log id, claimed hash} or an entry of another database written by W, delivered (a) as a head claiming the original hash, (b) as a head claiming the recomputed address, (c) stored under its true address and referenced as predecessor (next), or only as skip-list reference (refs), by a valid entry of the colluding writer; in half of the runs the receiver finally restarts and loads what it had persisted; by topic announcement, direct channel or manual Sync; oracle at every quiescent step: an injected entry that is invalid (claimed hash != address of its re-encoding, or a signed field / key / signature changed, or foreign log id) is in no honest replica's entry set, total order or head set under either hash, and the order of previously held entries is unchanged; non-trivial = >=3 attempts covering >=2 delivery modes reached a replica holding >=2 valid entries"})
+		Rule: "honest writer W, receiver R, adversary (listed as a colluding writer in half of the runs); W writes 2-5 entries, R replicates all or some; then 3-8 (thorough 3-16) attempts, each one valid entry of W's log with ONE wire field mutated {payload, clock.time, clock.id, next, refs, v, key, sig, identity.id, identity.publicKey, identity.signatures, identity.type, log id, claimed hash} or an entry of another database written by W, or (1 attempt in 6) a twin of a valid entry re-keyed and re-signed by the adversary and announced right after the valid entry itself was announced under the twin's address, delivered (a) as a head claiming the original hash, (b) as a head claiming the recomputed address, (c) stored under its true address and referenced as predecessor (next), or only as skip-list reference (refs), by a valid entry of the colluding writer; in half of the runs the receiver finally restarts and loads what it had persisted; by topic announcement, direct channel or manual Sync; oracle at every quiescent step: an injected entry that is invalid (claimed hash != address of its re-encoding, or a signed field / key / signature changed, or foreign log id) is in no honest replica's entry set, total order or head set under either hash, and the order of previously held entries is unchanged; non-trivial = >=3 attempts covering >=2 delivery modes reached a replica holding >=2 valid entries"})
 }
 
 var c04Fields = []string{"payload", "clock.time", "clock.id", "next", "refs", "v", "key", "sig", "identity.id", "identity.publicKey", "identity.signatures", "identity.type", "id", "hash", "foreign-db"}
@@ -121,6 +121,29 @@ func scenC04(k *K) {
 			break
 		}
 		src := CopyHeads(vals[k.C.Intn(len(vals)):][:1])[0].(*entry.Entry)
+		if k.C.Chance(1, 6) {
+			// two steps: a twin of a valid entry that carries the writer's identity block but is
+			// keyed and signed by the adversary (invalid: key and signature changed), preceded
+			// by the valid entry itself announced under the twin's address
+			ident, priv := adv.ForgedIdentity("block-and-key", c.Peers[0].DB.Identity())
+			twin, err := adv.Craft("block-and-key", ident, priv, c.Addr, src.Payload, src.Next, src.Clock.Time)
+			if err != nil {
+				continue
+			}
+			desc := "resigned-twin@decoy-then-true-address"
+			invalid[twin.Hash.String()] = desc
+			decoy := CopyHeads([]ipfslog.Entry{src})[0].(*entry.Entry)
+			decoy.Hash = twin.Hash
+			modes["two-step"] = true
+			done++
+			k.W.Stat("tamper:resigned-twin")
+			k.W.Stat("tamper-mode:two-step")
+			adv.Deliver([]string{"topic", "direct", "sync"}[k.C.Intn(3)], c.Peers[1], R, decoy)
+			k.Steps(k.C.Range(3, 15))
+			adv.Deliver([]string{"topic", "direct", "sync"}[k.C.Intn(3)], c.Peers[1], R, twin)
+			k.Steps(k.C.Range(3, 25))
+			continue
+		}
 		field := c04Fields[k.C.Intn(len(c04Fields))]
 		mode := []string{"orig-hash", "rehash", "ancestor", "ref"}[k.C.Intn(4)]
 		if (mode == "ancestor" || mode == "ref") && !collude {
